@@ -107,10 +107,11 @@ class InsecureHomeKitProtocol(asyncio.Protocol):
 
     def connection_lost(self, exception: Exception) -> None:
         connection = self.connection
-        if connection.transport is None or connection.transport is self.transport:
+        if connection.transport is self.transport or (connection.transport is None and connection.closing):
             connection._connection_lost(exception)
-        # else: this transport was already superseded by a newer one, its loss
-        # must not tear down the connection that is in use now
+        # else: this transport was already superseded by a newer one or dropped
+        # by a failed connection attempt, its loss must neither tear down the
+        # connection that is in use now nor start another connector
         self._cancel_pending_requests()
 
     def _handle_timeout(self, fut: asyncio.Future[Any]) -> None:
